@@ -282,8 +282,15 @@ def out_hw(h, w, kh, kw, sh, sw, dh, dw, padding):
 
 
 def conv2d(net, rng, x, oc, k=(3, 3), s=(1, 1), d=(1, 1), padding="SAME", act="NONE", per_axis=None, bias=True,
-           out_dtype=None, wdtype=None):
+           out_dtype=None, wdtype=None, share=None):
     n, h, w, c = x.shape
+    if share is not None:      # reuse the filter (and bias) constants of an earlier convolution
+        oh, ow = out_hw(h, w, k[0], k[1], s[0], s[1], d[0], d[1], padding)
+        od = out_dtype or x.dtype
+        y = net.tensor([n, oh, ow, oc], od, _rs(rng, 0.01, 0.3), _zp(rng, od))
+        net.op("CONV_2D", [x] + list(share), [y], dict(Padding=PADDING[padding], StrideW=s[1], StrideH=s[0], DilationWFactor=d[1],
+                                                       DilationHFactor=d[0], FusedActivationFunction=ACT[act]))
+        return y
     wdtype = wdtype or ("uint8" if x.dtype == "uint8" else "int8")
     if per_axis is None:
         per_axis = x.dtype != "uint8" and rng.random() < 0.5
@@ -871,6 +878,30 @@ def fam_lut_mixed(rng):
     return net
 
 
+def fam_siamese(rng):
+    """two or three convolutions that share ONE filter and bias constant (siamese branches), the first of them the first
+    operator of the network with few input channels and stride 2: identity-keyed caches and in-place weight rewrites"""
+    net = Net("siamese")
+    dt = rng.choice(["int8", "int8", "uint8"])
+    h, w, c = rng.choice([8, 12, 16, 20]), rng.choice([8, 12, 16, 20]), rng.choice([1, 2, 3, 4, 8])
+    sc, zp = _rs(rng, 0.005, 0.1), _zp(rng, dt)
+    a = net.input([1, h, w, c], dt, sc, zp, name="input0")
+    b = net.input([1, h, w, c], dt, sc, zp, name="input1")
+    k = rng.choice([(3, 3), (3, 3), (1, 1), (2, 2), (5, 5)])
+    st = rng.choice([(2, 2), (2, 2), (1, 2), (1, 1)])
+    oc = rng.choice([4, 8, 16])
+    pad_ = rng.choice(["SAME", "VALID"])
+    ya = conv2d(net, rng, a, oc, k, st, (1, 1), pad_, rng.choice(["NONE", "RELU"]), per_axis=False)
+    shared = net.ops[-1]["inputs"][1:]
+    yb = conv2d(net, rng, b, oc, k, st, (1, 1), pad_, "NONE", share=shared)
+    outs = [ya, yb]
+    if rng.random() < 0.4:      # a third user of the same constants behind another operator
+        m = pool(net, rng, a, "MAX_POOL_2D", (1, 1), (1, 1), "VALID")
+        outs.append(conv2d(net, rng, m, oc, k, rng.choice([st, (1, 1)]), (1, 1), pad_, "NONE", share=shared))
+    net.output(*outs)
+    return net
+
+
 def fam_weights_heavy(rng):
     """convolutions / fully connected layers with many weights: weight buffering, double buffering, depth slicing,
     two-core weight interleaving"""
@@ -1152,7 +1183,7 @@ def fam_multi_subgraph(rng, kind=None):
 
 FAMILIES = {
     "conv_chain": fam_conv_chain, "conv_chain_big": lambda rng: fam_conv_chain(rng, big=True), "single": fam_single_op,
-    "diamond": fam_diamond, "mixed_cpu": fam_mixed_cpu, "unsupported": fam_unsupported, "lut_heavy": fam_lut_heavy, "lut_mixed": fam_lut_mixed, "weights_heavy": fam_weights_heavy, "ew_dag": fam_ew_dag, "multi_custom": fam_multi_custom,
+    "diamond": fam_diamond, "mixed_cpu": fam_mixed_cpu, "unsupported": fam_unsupported, "lut_heavy": fam_lut_heavy, "lut_mixed": fam_lut_mixed, "siamese": fam_siamese, "weights_heavy": fam_weights_heavy, "ew_dag": fam_ew_dag, "multi_custom": fam_multi_custom,
 }
 FAMILIES["multi_subgraph"] = fam_multi_subgraph
 
